@@ -93,7 +93,7 @@ async fn c14_history<TC: Configuration>(cx: &mut Cx, r: &mut Rng, thorough: bool
         }
         batches.push(b);
     }
-    let pars: Vec<u32> = if thorough { vec![0, 1, 2, 3, 5, 32, 100] } else { vec![0, 2, 32, 100] };
+    let pars: Vec<u32> = if thorough { vec![0, 1, 2, 3, 5, 32, 100] } else { vec![0, 1, 2, 32, 100] };
     let caches: Vec<u32> = if thorough { vec![0, 1, 2, 3] } else { vec![0, 1, 2, 3] };
     let mut baseline: Option<(Vec<[u8; 32]>, Vec<String>, String)> = None;
     for &par in &pars {
@@ -113,10 +113,17 @@ async fn c14_history<TC: Configuration>(cx: &mut Cx, r: &mut Rng, thorough: bool
                     if cache >= 2 {
                         tokio::time::sleep(Duration::from_millis(3)).await;
                     }
-                    match dir.publish(b.iter().map(|(l, v)| (AkdLabel(l.clone()), AkdValue(v.clone()))).collect()).await {
-                        Ok(eh) => hashes.push(eh.1),
-                        Err(e) => {
+                    // (in a task of its own, so that a panic inside the library is reported with its configuration)
+                    let d2 = dir.clone();
+                    let ups: Vec<(AkdLabel, AkdValue)> = b.iter().map(|(l, v)| (AkdLabel(l.clone()), AkdValue(v.clone()))).collect();
+                    match tokio::spawn(async move { d2.publish(ups).await }).await {
+                        Ok(Ok(eh)) => hashes.push(eh.1),
+                        Ok(Err(e)) => {
                             cx.fail(format!("C14 [cfg {} parallelism {} cache {} restart {}]: publish failed: {:?}", cfg, par, cache, restart, e));
+                            return;
+                        }
+                        Err(e) => {
+                            cx.fail(format!("C14 [cfg {} parallelism {} cache {} restart {}]: publish panicked although the same history is published without error sequentially: {}", cfg, par, cache, restart, e));
                             return;
                         }
                     }
